@@ -455,7 +455,8 @@ Inductive op :=
 | Partition (n : nat) (tags : list nat) (w : which) (inplace : bool)
 | PartitionTensors (n : nat) (tags : list nat) (w : which) (inplace : bool)
 | MakeTidsConsecutive (n : nat) (tid0 : nat)
-| Kill (n : nat).
+| Kill (n : nat)
+| RemoveAll (n : nat).
 
 Definition set_ctr (h : heap) (m c : nat) : heap :=
   let x := h_N h m in
@@ -464,6 +465,13 @@ Definition set_ctr (h : heap) (m c : nat) : heap :=
 Definition kill (h : heap) (m : nat) : heap :=
   let x := h_N h m in
   setN h m (mkN (n_tmap x) (n_imap x) (n_gmap x) (n_inner x) (n_outer x) (n_ctr x) false).
+
+(* remove_all_tensors: every held tensor forgets this network, all maps are
+   cleared, the tid counter restarts at 0 *)
+Definition remove_all (h : heap) (m : nat) : heap :=
+  let x := h_N h m in
+  let h1 := fold_left (fun hh p => setT hh (snd p) (remove_owner (h_T hh (snd p)) m)) (n_tmap x) h in
+  setN h1 m (mkN [] [] [] [] [] 0 (n_alive x)).
 
 Definition publish1 (h : heap) (r : nat) : heap :=
   if mem r (h_pub h) then h else set_pub h (h_pub h ++ [r]).
@@ -573,6 +581,7 @@ Definition step_core (h : heap) (o : op) : option heap :=
         (obind (pop_many h n (akeys (n_tmap (h_N h n)))) (fun p =>
            Some (fold_left (fun hh r => add_tensor hh n r None true) (snd p) (set_ctr (fst p) n tid0))))
   | Kill n => ifb (live h n) (Some (kill h n))
+  | RemoveAll n => ifb (live h n) (Some (remove_all h n))
   end.
 
 (* an operation that raises before mutating anything leaves the heap as it
